@@ -24,6 +24,7 @@ from . import extract
 MUTATORS = {'append', 'extend', 'insert', 'remove', 'pop', 'clear', 'sort', 'reverse', 'update', 'setdefault', 'popitem', 'add', 'discard',
             'difference_update', 'intersection_update', 'symmetric_difference_update', 'fill', 'resize', 'itemset', 'put', 'partition',
             'setflags', 'byteswap', 'move_to_end', 'appendleft', 'extendleft', '__setitem__', '__delitem__', '__iadd__', 'sort_values'}
+NP_COPY_FALSE_INPLACE = {'nan_to_num'}        # numpy functions that overwrite their first argument when copy=False
 NP_INPLACE = {'put', 'copyto', 'place', 'putmask', 'fill_diagonal', 'put_along_axis'}
 # calls that return an object sharing nothing writable with their arguments (or an immutable one)
 FRESH_CALLS = {'list', 'dict', 'set', 'tuple', 'frozenset', 'sorted', 'len', 'str', 'repr', 'int', 'float', 'bool', 'sum', 'min', 'max', 'any', 'all', 'abs',
@@ -206,6 +207,8 @@ class _Analysis(ast.NodeVisitor):
                 for k in n.keywords:
                     if k.arg == 'out':
                         self.note(res, n, k.value, ast.unparse(n)[:100])
+                    if k.arg == 'copy' and isinstance(k.value, ast.Constant) and k.value.value is False and name in NP_COPY_FALSE_INPLACE and n.args:
+                        self.note(res, n, n.args[0], ast.unparse(n)[:100])
                 # external calls handed a param-reachable argument: assumed not to write it
                 if name not in FRESH_CALLS and name not in MUTATORS:
                     args = list(n.args) + [k.value for k in n.keywords]
